@@ -230,6 +230,11 @@ func (w *inotify) AddWith(path string, opts ...addOpt) error {
 
 	w.mu.Lock()
 	defer w.mu.Unlock()
+	// Close() may have completed while we were waiting for the lock; the
+	// inotify descriptor is no longer ours then.
+	if w.isClosed() {
+		return ErrClosed
+	}
 	path, recurse := recursivePath(path)
 	if recurse {
 		return filepath.WalkDir(path, func(root string, d fs.DirEntry, err error) error {
@@ -309,6 +314,9 @@ func (w *inotify) Remove(name string) error {
 
 	w.mu.Lock()
 	defer w.mu.Unlock()
+	if w.isClosed() { // Closed while waiting for the lock.
+		return nil
+	}
 	return w.remove(filepath.Clean(name))
 }
 
